@@ -235,6 +235,67 @@ pub fn gen_big(rng: &mut Rng, pools: &Pools, long_needles: bool) -> Case {
     }
 }
 
+/// big haystacks made of filler with only a handful of interesting characters: the prefilter window
+/// is wide (greedy fallback / slab limits) while the relation itself is decided by a few positions
+pub fn gen_sparse_big(rng: &mut Rng, pools: &Pools) -> Case {
+    let cfg = gen_cfg(rng, true);
+    let unicode = rng.coin();
+    let filler = if unicode { *rng.pick(&['\u{e9}', '\u{4e2d}', 'x']) } else { *rng.pick(&['x', '-', ' ']) };
+    let hl = *rng.pick(&[300usize, 1100, 5000, 12000, 40000, 70000]) + rng.below(50);
+    let mut hay: Vec<char> = vec![filler; hl];
+    let mut specials: Vec<char> = "abAB1/".chars().collect();
+    if unicode {
+        specials.push(*rng.pick(&pools.curated));
+    }
+    rng.shuffle(&mut specials);
+    specials.truncate(rng.range(1, 3));
+    let k = rng.range(1, 5);
+    let mut placed: Vec<(usize, char)> = Vec::new();
+    for _ in 0..k {
+        let pos = match rng.below(4) {
+            0 => rng.below(3),
+            1 => hl - 1 - rng.below(3),
+            _ => rng.below(hl),
+        };
+        let c = *rng.pick(&specials);
+        hay[pos] = c;
+        placed.push((pos, c));
+    }
+    placed.sort();
+    placed.dedup_by_key(|p| p.0);
+    // needle over the special characters: their sequence, with duplicates / drops / swaps
+    let mut needle: Vec<char> = placed.iter().map(|p| ref_norm(p.1, &cfg)).collect();
+    match rng.below(6) {
+        0 if !needle.is_empty() => {
+            let i = rng.below(needle.len());
+            let c = needle[i];
+            needle.insert(i, c); // doubled character
+        }
+        1 if needle.len() >= 2 => {
+            let i = rng.below(needle.len() - 1);
+            needle.swap(i, i + 1);
+        }
+        2 if needle.len() >= 2 => {
+            let i = rng.below(needle.len());
+            needle.remove(i);
+        }
+        3 => needle.push(ref_norm(*rng.pick(&specials), &cfg)),
+        _ => (),
+    }
+    if rng.chance(1, 4) {
+        let f = ref_norm(filler, &cfg);
+        let i = rng.below(needle.len() + 1);
+        needle.insert(i, f);
+    }
+    normalize_needle(&mut needle, &cfg);
+    Case {
+        hay: Text::new(hay),
+        needle: Text::new(needle),
+        cfg,
+        profile: "sparse-big",
+    }
+}
+
 /// anchored-algorithm oriented cases (C05): whitespace at both ends, needles starting with non letters
 pub fn gen_anchored(rng: &mut Rng, pools: &Pools) -> Case {
     let cfg = gen_cfg(rng, false);
@@ -700,6 +761,7 @@ pub fn gen_case_for(idx: u64, rng: &mut Rng, pools: &Pools, props: &Props, long_
     let anchored_heavy = props.c05 && !props.c01;
     match idx % 64 {
         0 => gen_big(rng, pools, false),
+        32 if idx % 128 == 32 => gen_sparse_big(rng, pools),
         1 if idx % 256 == 1 => gen_big(rng, pools, true),
         2..=9 if !score_only => gen_placed(rng, pools),
         10..=40 if anchored_heavy => gen_anchored(rng, pools),
